@@ -188,6 +188,7 @@ pub struct Engine {
     pub batch: Vec<Option<(ColumnBatchBuilder, u32)>>,
     pub cmd: Vec<CommandBuffer>,
     pub cmd_spawns: Vec<usize>,
+    pub guards: crate::guard_engine::Guards,
 }
 
 struct SpawnV<'a>(&'a mut World, &'a [u64]);
@@ -292,6 +293,7 @@ impl Engine {
             batch: (0..4).map(|_| None).collect(),
             cmd: (0..2).map(|_| CommandBuffer::new()).collect(),
             cmd_spawns: vec![0, 0],
+            guards: Default::default(),
         }
     }
 
@@ -438,6 +440,9 @@ impl Engine {
             self.register_clones(out);
             return o;
         }
+        if (100..=115).contains(&opc) {
+            return self.guard_op(opc, r, out);
+        }
         if opc == 22 {
             // drop every container
             self.eb = (0..4).map(|_| EntityBuilder::new()).collect();
@@ -483,6 +488,13 @@ impl Engine {
         if opc == 21 {
             if w >= 2 || self.worlds[w].is_none() {
                 return vec![8];
+            }
+            // no guard may outlive its world
+            for s in self.guards.slots.iter_mut() {
+                if s.world == w {
+                    s.obj = None;
+                    s.kind = 0;
+                }
             }
             let world = self.worlds[w].take();
             drop(world);
@@ -1062,6 +1074,7 @@ fn run_script(args: &[u64], out: &mut Out) -> Canon {
     }
     // implicit teardown for the ledger oracle (not part of the compared observations)
     let sizes = eng.sizes.clone();
+    eng.guards.slots.clear();
     eng.register_clones(out);
     eng.eb.clear();
     eng.ebc.clear();
